@@ -844,8 +844,22 @@ func (x *Exec) havocLoop(p *Path, fr *FrameState, l *Loop) {
 						}
 						if !cc.IsInvoke() {
 							if ft := x.functypeContract(cc); ft != nil && !hasEverything(ft) {
-								for _, k := range x.modKeysOfContract(ft, cc) {
-									addKey(k, "")
+								var objOf func(string) string
+								if top {
+									// an argument that names the same object in every iteration is havocked alone
+									objOf = func(prm string) string {
+										for i, n := range ft.ParamNames {
+											if n == prm && i < len(cc.Args) {
+												if v, ok := invariantVal(cc.Args[i]); ok && v.K == KScalar {
+													return v.S
+												}
+											}
+										}
+										return ""
+									}
+								}
+								for _, ko := range x.modObjKeysOfContract(ft, cc, objOf) {
+									addKey(ko[0], ko[1])
 								}
 								continue
 							}
